@@ -6,3 +6,5 @@ import XzVerif.Props.C02
 #print axioms Props.C02.C02_dict_size_covers
 #print axioms Props.C02.C02_field_limits
 #print axioms Props.C02.C02_block_discipline
+#print axioms Props.C02.C02_writer_output_valid_strict_hashtable4
+#print axioms Props.C02.C02_writer_output_valid_strict_bintree
